@@ -349,7 +349,7 @@ func (t *timeline) checkAllDBs(m *Model, commit bool) *mismatch {
 	for _, r := range rows {
 		got = append(got, fmt.Sprint(r.Vals[0]))
 	}
-	want := append([]string(nil), m.Order...)
+	want := append(append([]string(nil), m.Order...), m.Ghosts...)
 	sort.Strings(want)
 	if strings.Join(got, ",") != strings.Join(want, ",") {
 		return &mismatch{"databases", fmt.Sprintf("SHOW DATABASES lists %v, model has %v", got, want)}
@@ -366,6 +366,17 @@ func (w *World) closeWal(rs *storage.RelationService) {
 func (t *timeline) recoverImage(img *Image) bool {
 	w := t.w
 	t.img = img
+	if img.Sel.GhostDir != "" {
+		os.MkdirAll(filepath.Join("data", img.Sel.GhostDir), 0755) // the world directory is the working directory
+		w.count("ghost_directory")
+	}
+	// images are file snapshots; directories without files that the earlier
+	// history knows of are part of the image too
+	if len(img.Admissible) > 0 {
+		for _, g := range img.Admissible[0].Ghosts {
+			os.MkdirAll(filepath.Join("data", g), 0755)
+		}
+	}
 	w.PreStmt(-2, t.capReqsFor(-2))
 	w.count("recoveries")
 	if t.initStorage(t.path + "|recover") {
@@ -384,6 +395,9 @@ func (t *timeline) recoverImage(img *Image) bool {
 	var firstMM *mismatch
 	for i, cand := range img.Admissible {
 		c := cand.Clone()
+		if img.Sel.GhostDir != "" {
+			c.Ghosts = append(c.Ghosts, img.Sel.GhostDir)
+		}
 		mm := t.checkAllDBs(c, true)
 		if w.Viol != nil {
 			break
@@ -839,7 +853,7 @@ func (t *timeline) run() {
 			for _, r := range rows {
 				got = append(got, fmt.Sprint(r.Vals[0]))
 			}
-			want := append([]string(nil), m.Order...)
+			want := append(append([]string(nil), m.Order...), m.Ghosts...)
 			sort.Strings(want)
 			if err != nil || strings.Join(got, ",") != strings.Join(want, ",") {
 				t.violate("O-contents", fmt.Sprintf("SHOW DATABASES lists %v (err %v), created were %v", got, err, want), map[string]string{"how": "contents", "class": "databases"}, i)
